@@ -172,6 +172,8 @@ func checkC15(p *Program, r *Report) {
 	c15ErrorsPropagate(p, r)
 	c15CursorPrimitives(p, r)
 	c15Identifiers(p, r, sm)
+	r.Explain("R18 wherever a statement may begin after a terminator, every terminator token is acceptable again (the empty statement): two texts that parse still parse when joined by a newline, also when the second begins with a terminator. Decided by running the generated automaton from every such state.")
+	c15TerminatorsCompose(p, r)
 }
 
 // c15Grammar: R2.
@@ -1877,4 +1879,125 @@ func underEquality(b *ssa.BasicBlock, ch ssa.Value, seen map[*ssa.BasicBlock]boo
 		}
 	}
 	return true
+}
+
+// c15TerminatorsCompose (R18): two texts that parse, joined by a newline, parse to the two statement lists one after the other.
+// The second text may begin with any statement terminator (a text that is only ";" parses, so does ";a"), and the join adds a
+// terminator of its own: so wherever a statement may begin after a terminator — the states of the automaton reached by the
+// statement list followed by a terminator — every terminator token must be acceptable again (through the empty statement).
+// Decided on the generated tables: for each such state and each terminator token the automaton is run (default and
+// look-ahead reductions included) until it shifts the token; an error action is reported.
+func c15TerminatorsCompose(p *Program, r *Report) {
+	g, err := BuildLALR(p)
+	if err != nil {
+		r.Undecided("C15.R18", "tables", "parser/parser.go", err.Error())
+		return
+	}
+	// the recursive list rule A -> A B C with A the start symbol's list: the one whose A is reachable from rule 1's right-hand side
+	listRule := -1
+	for rule := 1; rule < len(g.R1); rule++ {
+		rhs := g.RHS[rule]
+		if len(rhs) == 3 && rhs[0] == -g.R1[rule] && rhs[1] < 0 && rhs[2] < 0 && rhs[1] != rhs[0] && rhs[2] != rhs[0] {
+			// the separator derives only tokens (terminators): all rules below it have token-only or same-family right-hand sides
+			if _, ok := terminatorTokens(g, -rhs[1]); ok {
+				if listRule < 0 {
+					listRule = rule
+				}
+			}
+		}
+	}
+	if listRule < 0 {
+		r.Undecided("C15.R18", "statement list rule", "parser/parser.go", "no rule of the form list -> list separator element with a token-only separator found")
+		return
+	}
+	A, B := g.RHS[listRule][0], g.RHS[listRule][1]
+	terms, _ := terminatorTokens(g, -B)
+	var toks []int
+	for t := range terms {
+		toks = append(toks, t)
+	}
+	sort.Ints(toks)
+	n := 0
+	var starts []int
+	for s := range g.Reach {
+		starts = append(starts, s)
+	}
+	sort.Ints(starts)
+	seen := map[[2]int]bool{}
+	for _, p0 := range starts {
+		s1, ok := g.Edges[p0][A]
+		if !ok {
+			continue
+		}
+		q, ok := g.Edges[s1][B]
+		if !ok {
+			continue
+		}
+		for _, t := range toks {
+			if seen[[2]int{q, t}] {
+				continue
+			}
+			seen[[2]int{q, t}] = true
+			n++
+			stack := []int{p0, s1, q}
+			verdict := ""
+			for step := 0; step < 50 && verdict == ""; step++ {
+				kind, arg := g.Action(stack[len(stack)-1], t)
+				switch kind {
+				case actShift:
+					verdict = "shift"
+				case actReduce:
+					k := len(g.RHS[arg])
+					if k >= len(stack) {
+						verdict = "shift" // reduces past the part of the stack that is modelled: the list was completed, not refused
+						break
+					}
+					stack = stack[:len(stack)-k]
+					stack = append(stack, g.Goto(stack[len(stack)-1], g.R1[arg]))
+				case actAccept:
+					verdict = "shift"
+				default:
+					verdict = "error"
+				}
+			}
+			r.Check(verdict == "shift", "C15.R18", fmt.Sprintf("%s %s . %s", g.SymName(A), g.SymName(B), g.TokName(t)), "parser/parser.go (tables)",
+				"after a statement list and a terminator another terminator is accepted (empty statement)",
+				fmt.Sprintf("in state %d, reached after a statement list and a terminator, the terminator %s is a syntax error: a text ending in a newline followed by a text beginning with %s no longer parses although each does", q, g.TokName(t), g.TokName(t)))
+		}
+	}
+	r.Floor("C15.R18", n, 2)
+}
+
+// terminatorTokens: the tokens nonterminal nt derives, when everything below nt consists of tokens and of nonterminals of the
+// same kind (a separator such as `term: ';' newlines | newlines | ';'`).
+func terminatorTokens(g *LALR, nt int) (map[int]bool, bool) {
+	toks := map[int]bool{}
+	seen := map[int]bool{}
+	var visit func(x int) bool
+	visit = func(x int) bool {
+		if seen[x] {
+			return true
+		}
+		seen[x] = true
+		found := false
+		for rule := 1; rule < len(g.R1); rule++ {
+			if g.R1[rule] != x {
+				continue
+			}
+			found = true
+			if len(g.RHS[rule]) == 0 {
+				return false // can be empty: not a separator
+			}
+			for _, s := range g.RHS[rule] {
+				if s > 0 {
+					toks[s] = true
+				} else if !visit(-s) {
+					return false
+				}
+			}
+		}
+		return found && len(seen) <= 4
+	}
+	ok := visit(nt)
+	return toks, ok && len(toks) > 0 && len(toks) <= 3
 }
